@@ -333,6 +333,8 @@ def run(chk, tier):
     from ..rules import sibs as _SB
     _SB.check(chk, db, ['_optional/', '_variant/', '_expected/'])      # SIB: cv/ref-qualified overloads of one member agree
     _SB.positive_control(chk)
+    from ..rules import initform as _IF
+    _IF.check(chk, db, ['_optional/', '_variant/', '_expected/'])      # INITFORM: forwarded packs direct-non-list-initialise
     nrel = rel.check(chk, db, ["_optional/optional.hpp", "_variant/variant.hpp", "_expected/unexpected.hpp"])
     if nrel < 22:
         chk.analysis_broken("REL: only %d optional/variant operators modelled (floor 22)" % nrel)
